@@ -101,6 +101,30 @@ def asModelled : Facts where
   importRegisteredIn := .param
   importTarget := .cursor
 
+/-- `TypeChecker::rust_type_to_roto_type`: the variants of `TypeDescription` -/
+inductive DescK | leaf | val | option | list | verdict | result
+  deriving DecidableEq, Repr
+
+/-- what an arm of `rust_type_to_roto_type` returns -/
+inductive ConvAct
+  /-- the name of the registered type with this `TypeId`, or an "unregistered type" error -/
+  | lookup
+  /-- `Type::<ctor>(<conversions of the listed components, in this order>)` -/
+  | wrap (ctor : DescK) (args : List Nat)
+  deriving DecidableEq, Repr
+
+structure ConvFacts where
+  /-- the unit type is answered before the description is looked at -/
+  unitFirst : Bool
+  arms : List (DescK × ConvAct)
+  deriving DecidableEq, Repr
+
+/-- `convTy` of `Model/Registration.lean` (`RustTy.reg` stands for `Leaf` and `Val`) -/
+def convAsModelled : ConvFacts where
+  unitFirst := true
+  arms := [(.leaf, .lookup), (.option, .wrap .option [0]), (.verdict, .wrap .verdict [0, 1]),
+    (.result, .wrap .result [0, 1]), (.list, .wrap .list [0]), (.val, .lookup)]
+
 /-- the model switches that the facts determine -/
 def Facts.cfg (f : Facts) : Cfg :=
   { Cfg.fixed with
